@@ -120,6 +120,7 @@ func NewHTTPStoreCache(key []byte, store store.Store) *httpCache {
 
 // Get get http cache
 func (hc *httpCache) Get() (status Status, response *HTTPResponse) {
+	verifPoint("get.enter", hc)
 	hc.mu.Lock()
 	status, done, response := hc.get()
 	hc.mu.Unlock()
@@ -284,9 +285,9 @@ func (hc *httpCache) get() (status Status, done chan waitResult, data *HTTPRespo
 
 // HitForPass set the http cache hit for pass
 func (hc *httpCache) HitForPass(ttl int) {
+	verifPoint("hitForPass.enter", hc)
 	hc.mu.Lock()
 	defer hc.mu.Unlock()
-	verifPoint("hitForPass.locked", hc)
 	if ttl <= 0 {
 		ttl = defaultHitForPassSeconds
 	}
@@ -310,9 +311,9 @@ func (hc *httpCache) HitForPass(ttl int) {
 
 // Cacheable set http cache cacheable and compress it
 func (hc *httpCache) Cacheable(resp *HTTPResponse, ttl int) {
+	verifPoint("cacheable.enter", hc)
 	hc.mu.Lock()
 	defer hc.mu.Unlock()
-	verifPoint("cacheable.locked", hc)
 	// 如果是可缓存数据，则选择默认的best compression
 	resp.CompressSrv = compress.BestCompression
 	_ = resp.Compress()
@@ -338,6 +339,7 @@ func (hc *httpCache) Cacheable(resp *HTTPResponse, ttl int) {
 
 // Age get http cache's age
 func (hc *httpCache) Age() int {
+	verifPoint("age.enter", hc)
 	hc.mu.RLock()
 	defer hc.mu.RUnlock()
 	return int(nowUnix() - hc.createdAt)
